@@ -439,7 +439,8 @@ MonStep(m0, step, C) ==
       (* the reference oracle *)
       refIds == checks \cap RefProps
       r1 == IF refIds # {} /\ o.fault = "" /\ ~RefCheck(post) THEN AddBads(post, refIds) ELSE post
-      r2 == Flag(r1, o.fault # "", "C05", checks)
+      (* "C05f": a case whose delivered sequence has no reference (an inner that is itself shared), judged for "without panicking or blocking" only *)
+      r2 == Flag(r1, o.fault # "", "C05", IF "C05f" \in checks THEN checks \cup {"C05"} ELSE checks)
       r3 == Flag(r2, "C20" \in checks /\ o.fault = "" /\ ~GroupCheck(r2, C), "C20", checks)
       (* C06: a subject that has terminated or was unsubscribed reports itself finished and empty *)
       r4 == Flag(r3, s.k = "squery" /\ o.fault = "" /\ GetB(r3.sdead, s.a)
